@@ -518,6 +518,12 @@ func (fr *frame) havocLoop(st *State, m *loopMods) {
 	}
 	for _, c := range sortedKeys(m.classes) {
 		es := m.classes[c]
+		if es == nil {
+			es = classSorts[c]
+		}
+		if es == nil {
+			panic(unsupported("loop target heap class " + c + " has an unknown sort (named only through allof before any use)"))
+		}
 		noteClass(c, es, false)
 		pre := st.heapArr(c, es)
 		var allowed []*Term
